@@ -200,7 +200,6 @@ func runC18(cfg *Cfg, rec *ev.Rec) {
 	}
 	// field events produced by real API executions (operand envelope)
 	apiRounds(cfg, rec, cfg.n(160, 3200), "c18-api")
-	rec.Sample(map[string]interface{}{"direct_rounds": n, "layout": mon.Layout})
 }
 
 func replayField(rec *ev.Rec, c map[string]interface{}) {
